@@ -14,6 +14,11 @@ values, calendars) x values, all executed on the real pattern classes:
   hash-collisions (merged into 'history')  per type a lattice of values (24 consecutive days x 0..5000 ns, ...) is grouped
             by the library's own hash(); the members of every collision group are formatted and their texts parsed
             consecutively through ONE pattern object and compared with a second object that did something else in between
+  config-chains  every permutation of <= 3 of the with_* calls (two-digit-year maximum, calendar, template value, culture) on
+            fixed / single-field / yy patterns: same answers as the same configuration built in a canonical order, plus
+            the round trip under the modelled configuration
+  value-route  format(value, text) / value.__format__(text) / f-string for every generated pattern text (quoted, space and
+            fixed shapes) and whitespace-edged variants == XPattern.create_with_current_culture(text).format(value)
   interposed (merged into 'history')  a catalogue of calls that fail part-way (None, value of another type, values that
             stop answering after k attribute reads, another pattern failing, repr of an unnameable month, garbage parse,
             append_format into a raising builder) placed at every position of a format sequence: later answers unchanged
@@ -32,6 +37,7 @@ Oracles (DESIGN section 4, C07):
 from __future__ import annotations
 
 import functools
+import itertools
 import re
 
 from pyoda_time import CalendarSystem, LocalDate
@@ -225,7 +231,7 @@ def value_alphabet(kind, tmpl_cal, with_cal, small=False, rich=False):
         dates = [d for d in dates if d[0] == "ISO"]
     if small:
         dates = list(dates)
-        keep = dates[:6] + [d for d in dates[6:] if d[1:] in ((9999, 12, 31), (-9998, 1, 1))]
+        keep = dates[:6] + [d for d in dates[6:] if d[1:] in ((9999, 12, 31), (-9998, 1, 1)) or d[1] % 100 in (31, 45, 81) and d[1] > 0]
         return tuple([d + T.TIME_VALUES[0] for d in keep] + [dates[1] + t for t in T.TIME_VALUES[1:9]])
     return tuple(T.datetime_values(list(dates), T.TIME_VALUES))
 
@@ -1228,6 +1234,175 @@ def interposed_worker(kind):
 
 
 # ---------------------------------------------------------------------------------------------------------------
+# configuration chains: with_* calls in every order
+# ---------------------------------------------------------------------------------------------------------------
+
+CHAIN_OPS = {
+    "date": ("tdy", "cal", "tmpl", "culture"), "datetime": ("tdy", "cal", "tmpl", "culture"), "instant": ("tdy", "tmpl", "culture"),
+    "time": ("tmpl", "culture"), "annual": ("tmpl", "culture"), "offset": ("culture",), "duration": ("culture",),
+}
+CHAIN_ARGS = {"tdy": 80, "cal": "Julian", "culture": "fi-FI",
+              "tmpl": {"date": ("ISO", 1985, 7, 23), "datetime": ("ISO", 1985, 7, 23, 13, 45, 56, 500_000_000),
+                       "instant": ("ISO", 1985, 7, 23, 13, 45, 56, 500_000_000), "time": (13, 45, 56, 500_000_000), "annual": (7, 23)}}
+CHAIN_EXTRA_PATTERNS = {
+    "date": ("yy'~'MM'~'dd", "dd'~'MM'~'yy", "yy/M", "MMMM'~'yy"), "datetime": ("yy'~'MM'~'dd' 'HH':'mm", "d/M/yy HH:mm:ss", "ld<yy'~'MM'~'dd>'T'lt<HH>"),
+    "instant": ("yy'~'MM'~'dd'T'HH':'mm'Z'",), "time": ("h:mm tt", "mm'~'ss"), "annual": ("MMMM", "%d"), "offset": ("+HH:mm",), "duration": ("-H:mm:ss",),
+}
+
+
+def chain_apply(kind, pat, op):
+    if op == "tdy":
+        return pat.with_two_digit_year_max(CHAIN_ARGS["tdy"])
+    if op == "cal":
+        return pat.with_calendar(CalendarSystem.for_id(CHAIN_ARGS["cal"]))
+    if op == "tmpl":
+        return pat.with_template_value(T.to_lib(kind, CHAIN_ARGS["tmpl"][kind]))
+    return pat.with_culture(culture(CHAIN_ARGS["culture"]))
+
+
+def chain_model(kind, ops):
+    """(template tuple, two-digit-year maximum, culture name) after applying ops in order - the documented meaning of
+    each call: with_calendar converts the current template, with_template_value replaces it, the others are
+    independent settings."""
+    tmpl, tdy, cname = DEFAULT_TMPL[kind], 30, ""
+    for op in ops:
+        if op == "tdy":
+            tdy = CHAIN_ARGS["tdy"]
+        elif op == "culture":
+            cname = CHAIN_ARGS["culture"]
+        elif op == "tmpl":
+            tmpl = CHAIN_ARGS["tmpl"][kind]
+        elif op == "cal":
+            d = T.to_lib("date", tmpl[:4]).with_calendar(CalendarSystem.for_id(CHAIN_ARGS["cal"]))
+            tmpl = (d.calendar.id, d.year, d.month, d.day) + tuple(tmpl[4:])
+    return tmpl, tdy, cname
+
+
+def chain_worker(kind):
+    acc = Acc()
+    ops_all = CHAIN_OPS[kind]
+    texts = [fp.text for fp in G.fixed_patterns(kind)] + [p.text for p in G.custom_patterns(kind, 1)] + list(CHAIN_EXTRA_PATTERNS[kind])
+    chains = [c for n in range(1, 4) for c in itertools.permutations(ops_all, n)]
+    for text in dict.fromkeys(texts):
+        base = create(acc, kind, text, "", True, None, "chain")
+        if base is None:
+            continue
+        for ops in chains:
+            tmpl, tdy, cname = chain_model(kind, ops)
+            P = props(cname)
+            spec, safe = T.scan(kind, text, P)
+            label = "chain=" + ">".join(ops)
+            if spec is not None and "mtext" in spec.names and tmpl is not None and kind != "time" and (tmpl[0] if kind == "annual" else tmpl[2]) > 12:
+                continue
+            acc.count(states=1)
+            try:
+                p = base
+                for op in ops:
+                    p = chain_apply(kind, p, op)
+                # the same configuration reached in a canonical order through the factory
+                q = KCLS[kind].create(text, culture(cname))
+                if "tmpl" in ops or "cal" in ops:
+                    q = q.with_template_value(T.to_lib(kind, tmpl))
+                if "tdy" in ops:
+                    q = q.with_two_digit_year_max(tdy)
+                acc.count(transitions=len(ops) + 3)
+            except Exception as e:  # noqa: BLE001
+                if exc_origin(e) == "harness":
+                    raise
+                acc.violation("C07/%s/config-chain/raises-%s/%s" % (kind, type(e).__name__, exc_site(e)),
+                              "pattern %r: %s raised %s: %s" % (text, label, type(e).__name__, str(e)[:160]), {"kind": kind, "pattern": text, "config": label})
+                continue
+            tcal = tmpl[0] if kind in ("date", "datetime", "instant") else None
+            values = value_alphabet(kind, tcal, spec is not None and "cal" in spec.names, True)
+            bad = None
+            for v in values:
+                try:
+                    lv = T.to_lib(kind, v)
+                except Exception:  # noqa: BLE001
+                    continue
+                a, b = observe(p, ("format", lv)), observe(q, ("format", lv))
+                acc.count(transitions=2, evaluations=1)
+                if a != b:
+                    bad = ("format(%s)" % short(lv), a, b)
+                    break
+                if a[0] == "text":
+                    pa, pb = observe(p, ("parse", a[1])), observe(q, ("parse", a[1]))
+                    acc.count(transitions=2, evaluations=1)
+                    if pa != pb:
+                        bad = ("parse(%r)" % a[1], pa, pb)
+                        break
+            if bad is not None:
+                acc.violation("C07/%s/config-chain/order-dependent/%s" % (kind, "+".join(sorted(ops))),
+                              "pattern %r: the chain %s answers %s with %s, the same configuration built as create(culture).with_template_value"
+                              "(...).with_two_digit_year_max(...) answers %s" % (text, label, bad[0], short(bad[1], 90), short(bad[2], 90)),
+                              {"kind": kind, "pattern": text, "config": label})
+                continue
+            c = Case(kind, text, cname, label, p, tmpl, spec, spec is not None and safe, "chain")
+            c.tdy = tdy
+            run_case(acc, c, values, None)
+    return acc
+
+
+# ---------------------------------------------------------------------------------------------------------------
+# the value's own route: format(value, pattern text) / f-string / __format__
+# ---------------------------------------------------------------------------------------------------------------
+
+WS_VARIANTS = (lambda t: " " + t, lambda t: t + " ", lambda t: " " + t + " ", lambda t: "\t" + t, lambda t: t + "\t")
+
+
+def value_route_worker(task):
+    kind, tier, lo, hi = task
+    acc = Acc()
+    pats = [p for p in pattern_list(kind, tier) if p.delim in ("", "q", "sp", "fixed", "T", "emb-std")][lo:hi]
+    vals = value_alphabet(kind, "ISO" if kind in ("date", "datetime", "instant") else None, False, True)
+    lv = T.to_lib(kind, vals[min(3, len(vals) - 1)])
+    for idx, pat in enumerate(pats):
+        texts = [pat.text]
+        if len(pat.fields) <= 1 or pat.delim == "fixed":
+            texts += [f(pat.text) for f in WS_VARIANTS]
+        else:
+            texts.append(WS_VARIANTS[(lo + idx) % len(WS_VARIANTS)](pat.text))
+        for text in texts:
+            acc.count(states=1, transitions=4, evaluations=1)
+            try:
+                want = ("text", KCLS[kind].create_with_current_culture(text).format(lv))
+            except Exception as e:  # noqa: BLE001
+                if exc_origin(e) == "harness":
+                    raise
+                want = ("raise", "InvalidPatternError" if isinstance(e, InvalidPatternError) else type(e).__name__)
+            got = []
+            for route, fn in (("format(value, text)", lambda: format(lv, text)), ("value.__format__(text)", lambda: lv.__format__(text)),
+                              ("f-string", lambda: "{0:{1}}".format(lv, text) if "{" not in text and "}" not in text else format(lv, text))):
+                try:
+                    got.append((route, ("text", fn())))
+                except Exception as e:  # noqa: BLE001
+                    if exc_origin(e) == "harness":
+                        raise
+                    got.append((route, ("raise", "InvalidPatternError" if isinstance(e, InvalidPatternError) else type(e).__name__)))
+            for route, g in got:
+                if g != want:
+                    edge = "plain" if text == pat.text else "whitespace-edged"
+                    acc.violation("C07/%s/value-route/%s/%s" % (kind, route, edge),
+                                  "%s with pattern text %r gives %s, %s.create_with_current_culture(%r).format(value) gives %s" % (
+                                      route, text, short(g, 80), KCLS[kind].__name__, text, short(want, 80)),
+                                  {"kind": kind, "pattern": text, "route": route})
+                    break
+            else:
+                acc.count(nontrivial=1)
+    if lo == 0:
+        # a blank spec means the default pattern
+        for blank in ("", " ", "\t", "  "):
+            try:
+                if format(lv, blank) != str(lv):
+                    acc.violation("C07/%s/value-route/blank-spec" % kind, "format(value, %r) = %r but str(value) = %r" % (blank, format(lv, blank), str(lv)),
+                                  {"kind": kind, "pattern": blank})
+            except Exception as e:  # noqa: BLE001
+                acc.lib_exception("C07/%s/value-route/blank-spec" % kind, e, {"pattern": blank})
+    acc.outcome("value route agrees with create_with_current_culture(text).format(value)", acc.nontrivial)
+    return acc
+
+
+# ---------------------------------------------------------------------------------------------------------------
 # driver
 # ---------------------------------------------------------------------------------------------------------------
 
@@ -1281,6 +1456,17 @@ def run(ctx):
         tasks = [(k, i) for k in G.KINDS for i in range(len(collision_patterns(k)))]
         for acc in pmap(collision_worker, sorted(tasks, key=lambda t: (t[0] not in ("datetime", "instant"), t))):
             ctx.merge_part("history", acc)
+    if not only or "config-chains" in only:
+        for acc in pmap(chain_worker, list(G.KINDS)):
+            ctx.merge_part("config-chains", acc)
+    if not only or "value-route" in only:
+        tasks = []
+        for kind in G.KINDS:
+            n = len([p for p in pattern_list(kind, tier) if p.delim in ("", "q", "sp", "fixed", "T", "emb-std")])
+            for lo in range(0, n, 150):
+                tasks.append((kind, tier, lo, min(n, lo + 150)))
+        for acc in pmap(value_route_worker, rotate(tasks, ctx.seed)):
+            ctx.merge_part("value-route", acc)
     if not only or "interposed" in only:
         for acc in pmap(interposed_worker, list(G.KINDS)):
             ctx.merge_part("history", acc)
